@@ -19,6 +19,7 @@ type job struct {
 	OnlyExt bool      `json:"only_ext,omitempty"` // enum: skip sequences that use base operations only (covered elsewhere)
 	Seqs    []string  `json:"seqs,omitempty"`
 	Stacks  []mwStack `json:"stacks,omitempty"`
+	Progs   []gProg   `json:"progs,omitempty"`
 }
 
 type mismatch struct {
@@ -51,6 +52,8 @@ func (j job) caseCount() int {
 		return int(j.Hi - j.Lo)
 	case "list":
 		return len(j.Seqs)
+	case "grp":
+		return 3 * len(j.Progs)
 	}
 	return len(j.Stacks)
 }
@@ -332,6 +335,70 @@ func workerMain(jobPath, outPath string) {
 			}
 			if log != nil {
 				log.WriteString("END " + s.key() + "\n")
+			}
+		}
+	case "grp":
+		w, err := newWorld()
+		if err != nil {
+			res.Fatal = err.Error()
+			write()
+			os.Exit(3)
+		}
+		g := &grpRunner{w: w}
+		for _, p := range j.Progs {
+			if log != nil {
+				log.WriteString("BEGIN " + p.key() + "\n")
+			}
+			h, lerr := g.run(p)
+			if lerr != "" {
+				if len(res.Notes) < 20 {
+					res.Notes = append(res.Notes, p.key()+": registration failed: "+lerr)
+				}
+			} else {
+				for _, route := range p.routes() {
+					o := serveRoute(h, p, route)
+					res.Requests++
+					if o.NoRoute {
+						if len(res.Notes) < 20 {
+							res.Notes = append(res.Notes, fmt.Sprintf("%s: route of event %d not found under %v", p.key(), route, p.candidatePaths(route)))
+						}
+						continue
+					}
+					res.N++
+					if o.Commits == 1 {
+						res.Commits1++
+					}
+					if p.nontrivial() {
+						res.Nontrivial++
+						if len(res.Samples) < 2 && p.Ev[route].T != 0 {
+							res.Samples = append(res.Samples, sample{Case: fmt.Sprintf("%s route=r%d", p.key(), route), Observed: fmt.Sprintf("body=%q status=%d", o.Body, o.Status)})
+						}
+					}
+					f, d := p.check(route, o)
+					if f == "" {
+						continue
+					}
+					min, mr, md := g.shrink(p, route, f)
+					if md == "" {
+						md = d
+					}
+					key := fmt.Sprintf("%s:route@%d:%s", min.key(), mr, f)
+					found := false
+					for i := range res.Mism {
+						if res.Mism[i].Key == key {
+							res.Mism[i].Count++
+							found = true
+						}
+					}
+					if !found {
+						res.Mism = append(res.Mism, mismatch{Key: key, Count: 1,
+							What:   fmt.Sprintf("route groups %s, route registered by event %d: %s (minimal form of %s)", min.key(), mr, md, p.key()),
+							Replay: fmt.Sprintf("// property C13: middleware isolation/order across route groups; markers >i / <i are written before / after $next by the middleware registered by event i, H<i> by the route of event i\n// failing route: event %d (paths tried: %v)\n// observed: %s\n%s", mr, min.candidatePaths(mr), md, min.script("w"))})
+					}
+				}
+			}
+			if log != nil {
+				log.WriteString("END " + p.key() + "\n")
 			}
 		}
 	default:
